@@ -62,9 +62,14 @@ type Buffer struct {
 
 // Reader is wrapper of bytes.Reader
 type Reader struct {
-	ref []byte
-	buf *bytes.Reader
+	ref       []byte
+	buf       *bytes.Reader
+	skipDepth int
 }
+
+// maxSkipDepth bounds the nesting of containers inside a skipped (unknown) field, so that a
+// packet made of nothing but nested heads cannot exhaust the stack.
+const maxSkipDepth = 1000
 
 //go:nosplit
 func bWriteU8(w *bytes.Buffer, data uint8) error {
@@ -355,6 +360,7 @@ func (b *Buffer) Grow(size int) {
 func (b *Reader) Reset(data []byte) {
 	b.buf.Reset(data)
 	b.ref = data
+	b.skipDepth = 0
 }
 
 //go:nosplit
@@ -457,6 +463,13 @@ func (b *Reader) skipFieldSimpleList() error {
 }
 
 func (b *Reader) skipField(ty byte) error {
+	if ty == MAP || ty == LIST || ty == StructBegin {
+		if b.skipDepth >= maxSkipDepth {
+			return fmt.Errorf("skip field: nesting deeper than %d", maxSkipDepth)
+		}
+		b.skipDepth++
+		defer func() { b.skipDepth-- }()
+	}
 	switch ty {
 	case BYTE:
 		b.Skip(1)
